@@ -1296,7 +1296,13 @@ def _trig_atoms(a0):
         if len(a0.p) == 1:
             (m, co), = a0.p.items()
             if len(m) == 1 and m[0][1] == 1 and co == 1 and c.atom_keys[m[0][0]][0] == 'var':
-                c.angle_inputs[c.atom_keys[m[0][0]][1]] = (cv, sv)
+                nm_ = c.atom_keys[m[0][0]][1]
+                c.angle_inputs[nm_] = (cv, sv)
+                # tie the circle point to the declared range of the angle
+                kind_, v_, lo_, hi_ = c.inputs.get(nm_, (None, None, None, None))
+                for bnd in (lo_, hi_):
+                    if bnd is not None and abs(float(bnd)) <= 2 * math.pi:
+                        _trig_point_axioms(c, az, cv, sv, float(bnd))
     return (SymReal({((ci, 1),): Fr(1)}), SymReal({((si, 1),): Fr(1)}))
 
 
